@@ -211,8 +211,33 @@ pub fn json_value_text(depth: u32) -> BoxedStrategy<String> {
     .boxed()
 }
 
+/// A leaf wrapped in `levels` containers; bit i of `pattern` (cyclic) says whether level i is an object or an
+/// array. Reaches the parsers' nesting limits, which the recursive strategy above (depth <= 12) never does.
+pub fn deep_nest_text() -> BoxedStrategy<String> {
+    (
+        prop_oneof![3 => 1u32..140, 2 => prop::sample::select(vec![31u32, 32, 33, 63, 64, 65, 66, 96, 120, 125, 126, 127, 128, 129])],
+        prop_oneof![2 => Just(u64::MAX), 1 => Just(0u64), 1 => Just(0x5555_5555_5555_5555u64), 2 => any::<u64>()],
+        json_scalar(),
+    )
+        .prop_map(|(levels, pattern, leaf)| {
+            let mut open = String::new();
+            let mut close = String::new();
+            for i in 0..levels {
+                if (pattern >> (i % 64)) & 1 == 1 {
+                    open.push_str("{\"n\":");
+                    close.insert(0, '}');
+                } else {
+                    open.push('[');
+                    close.insert(0, ']');
+                }
+            }
+            format!("{open}{leaf}{close}")
+        })
+        .boxed()
+}
+
 pub fn unknown_strategy(depth: u32) -> BoxedStrategy<Unknown> {
-    (any::<u8>(), unknown_name(), json_value_text(depth))
+    (any::<u8>(), unknown_name(), prop_oneof![9 => json_value_text(depth), 1 => deep_nest_text()])
         .prop_map(|(pos, name, value)| Unknown { pos, name, value })
         .boxed()
 }
